@@ -296,6 +296,9 @@ func eventStrings(x *Exec, max int) []string {
 	x.W.mu.Lock()
 	defer x.W.mu.Unlock()
 	evs := x.W.Events
+	if x.EventsAtEnd > 0 && x.EventsAtEnd < len(evs) {
+		evs = evs[:x.EventsAtEnd]
+	}
 	var out []string
 	if len(evs) > max {
 		out = append(out, fmt.Sprintf("... %d earlier events omitted", len(evs)-max))
